@@ -389,6 +389,8 @@ class Canon:
             return H.show(e)
         if k == "Item":
             return H.short(e["path"])
+        if k == "Match":
+            return "If"          # `match o { Some(v) => a, None => b }` and `if let Some(v) = o { a } else { b }`: one head
         return str(k)
 
     def local(self, n, depth):
